@@ -195,7 +195,7 @@ DEFAULT_PROFILE = dict(
     dip_spellings=True, result_dip=False, keyword_params=True, nested_structs=True,
     max_params=5, cb_struct_args=True, opt_slices=True, char=False, ordering=True,
     mut_self=True, opt_mut_oref=True, namespaces=False, byte_slices=True, renames=False,
-    strs_utf8=False, result_prim_err=True, opt_owned=False, write_prob=0.18, cb_opt=True, cb_slices=True, cb_strs=True, cb_aggr_ret=True, traits=False, trait_prob=0.5, held_callbacks=False, self_spelling=True, opt_strs=True, cb_orefs=False, opt_slice_fields=False, trait_method_disable=0.0, dip_params=0.2, impl_split=0.25, multi_cb=False,
+    strs_utf8=False, result_prim_err=True, opt_owned=False, write_prob=0.18, cb_opt=True, cb_slices=True, cb_strs=True, cb_aggr_ret=True, traits=False, trait_prob=0.5, held_callbacks=False, self_spelling=True, opt_strs=True, cb_orefs=False, opt_slice_fields=False, trait_method_disable=0.0, dip_params=0.2, impl_split=0.25, multi_cb=False, cb_oboxes=False,
 )
 
 
@@ -329,6 +329,9 @@ class Gen:
     def cb_arg(self):
         """Argument type of a callback or of a trait method (values Rust hands to foreign code)."""
         p = self.p
+        if p.get("cb_oboxes") and [o for o in self.opaques if not o.lifetimes] and self.chance(0.12):
+            # an object handed to foreign code for good: the callback owns it from here on (C / Rust drivers; C++ cannot express it, F52)
+            return ("obox", self.pick([o for o in self.opaques if not o.lifetimes]).name, False)
         cc = self.r.random()
         if cc < 0.6:
             return ("prim", self.pick(self.prims()))
